@@ -34,6 +34,11 @@ def run_positions(ctx, n, with_model=True):
     from pyab_experiment.binning import binning
     rng = ctx.rng
     keys = [k for k, _ in KNOWN] + [rand_key(rng) for _ in range(n)]
+    # key LENGTHS around the sizes at which an implementation might start to hash piecewise or to copy (powers of two, in characters and in bytes)
+    for base in (2 ** 16, 2 ** 20, 2 ** 21) if n > 1000 else (2 ** 16, 2 ** 20):
+        for d in (-1, 0, 1, 2):
+            keys.append("k" * (base + d - 1) + "Z")
+            keys.append("é" * ((base + d) // 2) + "z")
     answers = [None] * len(keys)
     if with_model and ctx.driver_ok:
         try:
@@ -82,6 +87,10 @@ def run_evaluators(ctx, n):
         text = gen.render(prog, rng, rng.choice(["plain", "plain", "trivia"]))
         envs = [gen.gen_env(prog, rng) for _ in range(5)]
         cases.append({"prog": prog, "text": text, "envs": envs})
+    # salts that spell a piece of generated code (what a user may have pasted): the salt reaches the hash as written
+    for frag in gen.generated_fragments():
+        prog = gen.Program("e", gen.lit_str(frag, rng), ["u"], ("ret", [(gen.lit_str("a", quote='"'), "1"), (gen.lit_str("b", quote='"'), "2"), (gen.lit_str("c", quote='"'), "1")]), {"u": "any"})
+        cases.append({"prog": prog, "text": gen.render(prog, rng, "plain"), "envs": [{"u": "unit%d" % k} for k in range(4)]})
     # sibling field names: digit runs of different length, leading zeros (the published order is plain code-point order of the names)
     for names in (["f2", "f10"], ["f10", "f2", "f1"], ["bucket_1", "bucket_01"], ["bucket_01", "bucket_1", "bucket_001"], ["a9", "a10", "a09", "A10"], ["x_2_b", "x_10_a"]):
         prog = gen.Program("e", gen.lit_str("s", quote='"'), names, ("ret", [(gen.lit_str("a", quote='"'), "1"), (gen.lit_str("b", quote='"'), "2"), (gen.lit_str("c", quote='"'), "1")]),
